@@ -45,11 +45,11 @@ impl Check for C09 {
     fn phases(&self, tier: Tier, b: f64) -> Vec<Phase> {
         let q = tier == Tier::Quick;
         vec![
-            Phase { name: "valid messages of each type x styles, offered to all 8 types + tagged entry points", cases: scale(if q { 4000 } else { 100000 }, b), exhaustive: false },
+            Phase { name: "valid messages of each type x styles, offered to all 8 types + tagged entry points", cases: scale(if q { 8000 } else { 100000 }, b), exhaustive: false },
             Phase { name: "complete single-fault neighbourhood of fixed bases (8 types x N bases)", cases: if q { 8 * 4 } else { 8 * 40 }, exhaustive: true },
-            Phase { name: "1-3 random faults", cases: scale(if q { 8000 } else { 300000 }, b), exhaustive: false },
-            Phase { name: "arrays of arity 0-7 over slot palettes", cases: scale(if q { 10000 } else { 300000 }, b), exhaustive: false },
-            Phase { name: "fault planted at each depth of nested recipients / signatures", cases: scale(if q { 2000 } else { 60000 }, b), exhaustive: false },
+            Phase { name: "1-3 random faults", cases: scale(if q { 16000 } else { 300000 }, b), exhaustive: false },
+            Phase { name: "arrays of arity 0-7 over slot palettes", cases: scale(if q { 20000 } else { 300000 }, b), exhaustive: false },
+            Phase { name: "fault planted at each depth of nested recipients / signatures", cases: scale(if q { 4000 } else { 60000 }, b), exhaustive: false },
         ]
     }
     fn run_case(&self, ctx: &mut Ctx, phase: usize, idx: u64) {
